@@ -93,7 +93,7 @@ PROPS["C05"] = dict(
                 "Added (proved, all UTM zones 1..60, bands, tiles, precisions 0..11, centerp): reverse_forward_utm with encodeInt_utm and decode_utm — "
                 "when Forward's own band/row consistency test passes it writes utmString, and Reverse of that string returns the same zone, the band's "
                 "hemisphere, the precision and tile+digits of the same square (northing tile re-expressed in the band's hemisphere); "
-                "the UPS (zone 0) branch of reverse_forward is not proved (correspondence only)."),
+                "and reverse_forward_ups with encodeInt_ups / decode_ups for both poles and every tile of the UPS range."),
     level_note=("MGRS letter tables and constants regenerated from MGRS.cpp/MGRS.hpp each run; hand-written model of the control flow; the latitude used "
                 "by the lat-less overload when its cheap bounds straddle a band edge is a kernel value supplied by UTMUPS::Reverse"),
     technique="Lean 4 proof (decide +kernel over the finite tables, induction for digit laws) + exact model/implementation correspondence",
